@@ -13,3 +13,4 @@ fn s_ext_complete() {
     let want = sext_ref(v, bits);
     assert!(got == want);
 }
+
